@@ -341,33 +341,35 @@ def r19g(ctx: Context) -> None:
                     documented.add(token.strip("`"))
     if documented != {"*", "?"}:
         raise AnalysisError(f"user guide: documented glob characters not recognised ({sorted(documented)})")
-    sites = [s for s in prog.sites_in(func) if s.external in ("glob.glob", "glob.iglob")]
+    closure = [f for f in prog.cls(AFS).methods.values() if f.qualname in prog.reachable([func])]
+    sites = [s for f in closure for s in prog.sites_in(f) if s.external in ("glob.glob", "glob.iglob")]
     if not sites:
         raise AnalysisError("determine_files_to_scan no longer expands globs")
     for site in sites:
-        tests = [t for t, p in guards_of(func.node, site.node) if p]
-        # the enclosing if-test (before decomposition) decides the branch: collect the characters it looks for
-        branch = None
-        for node in walk_local(func.node):
-            if isinstance(node, ast.If) and any(sub is site.node for stmt in node.body for sub in ast.walk(stmt)):
-                if branch is None or any(sub is node for sub in ast.walk(branch)):
-                    branch = node
-        key = func_key(func, site.node) + " [glob trigger]"
-        if branch is None:
+        holder = site.caller
+        key = func_key(holder, site.node) + " [glob trigger]"
+        # the condition under which the argument is expanded: the positive guard facts that test for characters
+        chars: Set[str] = set()
+        exact = True
+        triggers = []
+        for test, polarity in guards_of(holder.node, site.node, include_asserts=False):
+            operands = test.values if isinstance(test, ast.BoolOp) and isinstance(test.op, ast.Or) else [test]
+            membership = [o for o in operands if isinstance(o, ast.Compare) and len(o.ops) == 1 and isinstance(o.ops[0], ast.In) and isinstance(o.left, ast.Constant) and isinstance(o.left.value, str)]
+            if not membership:
+                continue
+            triggers.append(test)
+            if not polarity or len(membership) != len(operands):
+                exact = False
+            chars |= {o.left.value for o in membership}
+        if not triggers:
             rule.fail(key, site.where, "every path argument is expanded as a glob: a literal name containing glob characters can no longer be named")
             continue
-        chars = set()
-        exact = True
-        operands = branch.test.values if isinstance(branch.test, ast.BoolOp) and isinstance(branch.test.op, ast.Or) else [branch.test]
-        for operand in operands:
-            if isinstance(operand, ast.Compare) and len(operand.ops) == 1 and isinstance(operand.ops[0], ast.In) and isinstance(operand.left, ast.Constant) and isinstance(operand.left.value, str):
-                chars.add(operand.left.value)
-            else:
-                exact = False
-        if exact and chars == documented:
+        other = [norm(t) for t, p in guards_of(holder.node, site.node, include_asserts=False) if t not in triggers]
+        if exact and chars == documented and not other:
             rule.ok(key, "'*' in path or '?' in path")
         else:
-            rule.fail(key, where(func, branch), f"a path argument is treated as a glob when '{norm(branch.test)[:80]}': the documented rule is 'contains * or ?', so literal names (for example with '[') are expanded as patterns or rejected as unmatched globs")
+            text = " and ".join([norm(t) for t in triggers] + other)
+            rule.fail(key, site.where, f"a path argument is treated as a glob when '{text[:100]}': the documented rule is 'contains * or ?', so literal names (for example with '[') are expanded as patterns or rejected as unmatched globs")
 
 
 CANONICALISERS = {"os.path.normpath", "os.path.abspath", "os.path.realpath"}
@@ -517,10 +519,17 @@ def r19j(ctx: Context) -> None:
     prog = ctx.prog
     rule = ctx.rule("R19j", "arguments are expanded independently: no mutable state besides the result set is shared between them", 2)
     func, set_name = discovery_set(prog)
-    loops = [n for n in func.node.body if isinstance(n, ast.For)]
-    if not loops:
-        raise AnalysisError("determine_files_to_scan: the loop over the path arguments was not found")
-    loop = loops[0]
+    from sa.util import param_by_annotation
+
+    paths_param = param_by_annotation(func, "List[str]", exact=True)
+    loop = None
+    for stmt in func.node.body:  # a for statement, or a statement holding a comprehension / generator, over the path arguments
+        iterables = [n.iter for n in ast.walk(stmt) if isinstance(n, (ast.For, ast.comprehension))]
+        if any(isinstance(it, ast.Name) and it.id == paths_param for it in iterables):
+            loop = stmt
+            break
+    if loop is None:
+        raise AnalysisError("determine_files_to_scan: the iteration over the path arguments was not found")
     before = {}
     for stmt in func.node.body:
         if stmt is loop:
